@@ -7,6 +7,7 @@ import (
 	"fmt"
 	"io"
 	"math/rand"
+	"sort"
 	"strconv"
 	"strings"
 	"unicode/utf8"
@@ -387,6 +388,10 @@ type chunkReader struct {
 	rnd     *rand.Rand
 	ci      int
 	postEOF int
+	// raw stream only: end offset of every message; coalesced counts the reads
+	// that returned bytes of more than one message
+	bounds    []int
+	coalesced int
 }
 
 var errSpin = errors.New("verif: reader polled 10000 times after EOF")
@@ -440,6 +445,9 @@ func (r *chunkReader) Read(p []byte) (int, error) {
 		n = len(p)
 	}
 	copy(p, r.data[r.pos:r.pos+n])
+	if r.bounds != nil && n > 0 && sort.SearchInts(r.bounds, r.pos+n) > sort.SearchInts(r.bounds, r.pos+1) {
+		r.coalesced++
+	}
 	r.pos += n
 	if r.ch.EOFNow && r.pos >= len(r.data) {
 		return n, io.EOF // io.Reader may return the final bytes together with EOF
